@@ -258,6 +258,11 @@ impl RuntimeData {
         self.global_vars.clear();
         self.call_stack.clear();
         self.open_upvalues = std::ptr::null_mut();
+        // collections during earlier runs have raised the threshold, start over like a new VM
+        let limit = self.memory.limit.load(std::sync::atomic::Ordering::Relaxed);
+        self.memory
+            .next_gc
+            .store((limit / 4).max(16), std::sync::atomic::Ordering::Relaxed);
     }
 
     fn clear_objects(&mut self) {
